@@ -70,11 +70,31 @@ pub fn run(ctx: &Ctx) -> Report {
             }
         }
     }
+    // many distinct attribute types in one message (n = 1..=48 raw types, then every tail of sealing
+    // attributes): a fixed-size table of "types seen" fills up at some n
+    for n in 1..=48usize {
+        for tail in [&[][..], &[Tok::Mi][..], &[Tok::Mi, Tok::Mi256(32)][..], &[Tok::Mi, Tok::Mi256(32), Tok::FpOk][..], &[Tok::FpOk][..], &[Tok::Mi256(16), Tok::FpOk][..], &[Tok::Mi, Tok::FpOk][..]] {
+            for class in [0u8, 2] {
+                let mut b = wire::encode_header(class, 1, tid, 0);
+                for i in 0..n {
+                    wire::append_raw(&mut b, if i % 2 == 0 { 0xC100 + i as u16 } else { 0x4100 + i as u16 }, &[i as u8]);
+                }
+                for t in tail {
+                    match t {
+                        Tok::Mi => wire::append_mi(&mut b, engine_in::KEY),
+                        Tok::Mi256(k) => wire::append_mi256(&mut b, engine_in::KEY, *k as usize),
+                        _ => wire::append_fp(&mut b),
+                    }
+                }
+                look.push(Case::new("expose", b));
+            }
+        }
+    }
     let acc = acc.merge(crate::props::sweep(look.into_par_iter(), judge));
     Report {
         acc,
         exhaustive: true,
-        rule: "all sequences over {OPT, SOFTWARE, USERNAME, MI, MI256/32, MI256/16, FP} up to the depth, reference-serialised with correct HMACs/CRC, x {request, success}; only those the reference decoder accepts are judged (distinct_nontrivial); the iterated sequence is also taken through nth / skip / step_by / fold / last / count / size_hint and must be the same; plus messages whose hidden MESSAGE-INTEGRITY (behind MI-SHA256) carries a sealing-attribute header at every 4-aligned offset of its value; tail replacement is covered because every alternative tail of a prefix is itself a sequence of the space".into(),
+        rule: "all sequences over {OPT, SOFTWARE, USERNAME, MI, MI256/32, MI256/16, FP} up to the depth, reference-serialised with correct HMACs/CRC, x {request, success}; only those the reference decoder accepts are judged (distinct_nontrivial); the iterated sequence is also taken through nth / skip / step_by / fold / last / count / size_hint and must be the same; plus messages with 1..=48 distinct attribute types before every tail of sealing attributes (lookups judged for every type present); plus messages whose hidden MESSAGE-INTEGRITY (behind MI-SHA256) carries a sealing-attribute header at every 4-aligned offset of its value; tail replacement is covered because every alternative tail of a prefix is itself a sequence of the space".into(),
         bounds: json!({"sequences": n_sk, "depth": depth, "classes": 2}),
         assumptions: vec!["parser acceptance itself is C02's business: buffers the reference refuses are skipped here".into()],
         ..Default::default()
@@ -127,7 +147,13 @@ pub fn judge(case: &Case, acc: &mut Acc) {
         viol!(acc, P, "iterator-not-fused", case, "the attribute iterator yields again after returning None", "None forever", show(&after));
     }
     // lookups = first match on the exposed sequence
-    for t in crate::props::c02::LOOKUP_TYPES {
+    let mut lookup_types: Vec<u16> = crate::props::c02::LOOKUP_TYPES.to_vec();
+    for a in &m.attrs {
+        if !lookup_types.contains(&a.typ) {
+            lookup_types.push(a.typ);
+        }
+    }
+    for t in lookup_types {
         let w = want.iter().find(|(ty, _)| *ty == t).map(|(_, v)| v.clone());
         let g = msg.raw_attribute(AttributeType::new(t)).map(|r| r.value.to_vec());
         let h = msg.has_attribute(AttributeType::new(t));
